@@ -15,6 +15,11 @@ sys.path.insert(0, HERE)
 
 
 def main(argv=None):
+    # one fixed hash seed for the harness itself: sympy's behaviour (and hence some findings) depends on set
+    # iteration order; oracles that study hash-seed dependence (C09, C18) start their own children
+    if argv is None and os.environ.get("PYTHONHASHSEED") != "0":
+        os.environ["PYTHONHASHSEED"] = "0"
+        os.execv(sys.executable, [sys.executable] + sys.argv)
     ap = argparse.ArgumentParser()
     ap.add_argument("--property")
     ap.add_argument("--tier", choices=["quick", "thorough"], default="quick")
